@@ -951,7 +951,8 @@ def render_arms(name, arms, doc, names):
         elif kind == "elem":
             tgt = f".elem {lstr(nm)} {names.index(nm)} {sub}"
         else:
-            tgt = f".panic {lstr(nm)}"
+            why = next((w for w in ("reserved", "error code", "diverging") if w in nm), "")
+            tgt = f".panic {lstr(nm)} {lstr(why)}"
         rows.append(f"  ⟨[{pats}], {tgt}⟩")
     lines.append(",\n".join(rows) + " ]")
     return "\n".join(lines)
@@ -982,8 +983,9 @@ inductive Target where
   | field (name : String) (idx : Nat)
   /-- `&[mut] self.<name>[<index> - sub]` -/
   | elem (name : String) (idx : Nat) (sub : Nat)
-  /-- `panic!(<msg>, ..)` -/
-  | panic (msg : String)
+  /-- `panic!(<msg>, ..)`; `reason` = which of the words "reserved" / "error code" / "diverging" the message
+  contains (first that does, "" if none) -/
+  | panic (msg : String) (reason : String)
   deriving DecidableEq, Repr
 
 /-- One arm: the inclusive ranges of its `|`-alternatives and its right-hand side. -/
